@@ -130,7 +130,7 @@ def _run_watchdog(cmd, env, timeout, startup_timeout):
 
 def tlc(module, cfg=None, env=None, workers=8, simulate=None, depth=None, timeout=1800,
         metadir=None, xss="256m", xmx="8g", extra=None, deque=False, coverage=True, seed=None,
-        want_dump=None, startup_timeout=240):
+        want_dump=None, startup_timeout=150):
     """Run TLC on /verif/spec/<module>.tla with /verif/spec/<cfg>. Returns TlcResult.
     A timeout or a crash of TLC raises ToolError (never a pass, never a violation)."""
     cfg = cfg or (module + ".cfg")
@@ -166,7 +166,7 @@ def tlc(module, cfg=None, env=None, workers=8, simulate=None, depth=None, timeou
     r.cmd = " ".join(cmd)
     t0 = time.time()
     out, rc = None, None
-    for attempt in range(3):
+    for attempt in range(2):
         out, rc, why = _run_watchdog(cmd, e, timeout, startup_timeout)
         if why is None:
             break
@@ -176,7 +176,7 @@ def tlc(module, cfg=None, env=None, workers=8, simulate=None, depth=None, timeou
         if why == "timeout":
             raise ToolError("TLC timeout after %ds: %s" % (timeout, r.cmd))
     else:
-        raise ToolError("TLC did not get past start-up in 3 attempts: %s" % r.cmd)
+        raise ToolError("TLC did not get past start-up in 2 attempts (an ASSUME over the imported data probably failed): %s" % r.cmd)
 
     class _P:
         pass
